@@ -506,14 +506,18 @@ def radial_ode_setup(chk):
                         e.oblige("append/u-vanishes-at-the-origin-and-equals-the-boundary-value-only-for-l=m=0",
                                  z3.And(z3.BoolVal(cond[0][:2] == (0, 0) and cond[1][:2] == (1, 0)), T.zr(cond[0][2]) == 0,
                                         T.zr(cond[1][2]) == z3.If(first, BNDV[0], 0)), kind="inv-step")
-                    e.oblige("append/mesh-transform-and-solver-options-are-passed", z3.BoolVal(pts_arg is RADP[0] and tfa is tf and "tol" in kw), kind="inv-step")
+                    e.oblige("append/mesh-transform-and-solver-options-are-passed",
+                             z3.And(framework.same_array(pts_arg, RADP[0], "qm"), z3.BoolVal(tfa is tf and "tol" in kw)), kind="inv-step")
                 else:
                     oki = isinstance(cond, list) and len(cond) == 2
                     e.oblige("append/two-initial-values", z3.BoolVal(bool(oki)), kind="inv-step")
                     if oki:
                         e.oblige("append/initial-values-are-the-monopole-tail-only-for-l=m=0",
                                  z3.And(T.zr(cond[0]) == z3.If(first, BNDV[0] / RMAX, 0), T.zr(cond[1]) == z3.If(first, -BNDV[0] / (RMAX * RMAX), 0)), kind="inv-step")
-                    e.oblige("append/interval-transform-and-solver-options-are-passed", z3.BoolVal(interval is IVL[0] and tfa is tf and kw.get("no_derivatives") is True), kind="inv-step")
+                    same_ivl = isinstance(interval, (tuple, list)) and len(interval) == 2
+                    e.oblige("append/interval-transform-and-solver-options-are-passed",
+                             z3.And(z3.BoolVal(bool(same_ivl) and tfa is tf and kw.get("no_derivatives") is True),
+                                    *([T.zr(interval[q]) == T.zr(IVL[0][q]) for q in range(2)] if same_ivl else [])), kind="inv-step")
             BNDV = [BND]
             RADP = [None]
             IVL = [None]
